@@ -1,3 +1,4 @@
+import Rv.Model.Duration
 import Rv.Basic
 import Rv.Model.Range
 import Rv.Spec.Range
@@ -115,6 +116,29 @@ def stepFields (fs : List String) (obs : String) : String :=
       | [_, r] => if r = s!"ok:{v}" then "ok" else "bad:size-does-not-read-back"
       | _ => "bad:size-does-not-read-back"
     m ++ "\t" ++ verdict
+  | ["dur", n] =>
+    -- the implementation's observation: hex of the JSON text it saved | what it read back
+    let d := n.toInt?.getD 0
+    let st := Duration.durString d
+    let m := hexOut st ++ "|" ++ (match Duration.parseDuration st with | some v => s!"ok:{v}" | none => "err")
+    let verdict := match obs.splitOn "|" with
+      | [_, r] => if r = s!"ok:{d}" then "ok" else "bad:duration-does-not-read-back"
+      | _ => "bad:duration-does-not-read-back"
+    m ++ "\t" ++ verdict
+  | ["pdur", hx] =>
+    let x := field hx
+    (match Duration.parseDuration x with | some v => s!"ok:{v}" | none => "err") ++ "\t" ++ (if obs = "panic" then "bad:panic" else "ok")
+  | ["lvl", n] =>
+    let l := n.toInt?.getD 0
+    let st := Duration.levelString l
+    let m := hexOut st ++ "|" ++ (match Duration.parseLevel st with | some v => s!"ok:{v}" | none => "err")
+    let verdict := match obs.splitOn "|" with
+      | [_, r] => if r = s!"ok:{l}" then "ok" else "bad:log-level-does-not-read-back"
+      | _ => "bad:log-level-does-not-read-back"
+    m ++ "\t" ++ verdict
+  | ["plvl", hx] =>
+    let x := field hx
+    (match Duration.parseLevel x with | some v => s!"ok:{v}" | none => "err") ++ "\t" ++ (if obs = "panic" then "bad:panic" else "ok")
   | ["dir", lines, ek, off, ig, fo, dflt] =>
     let ls := decodeList lines
     let now := dirNow
